@@ -464,17 +464,53 @@ class Build:
                 self.index[n] = (gn, h)
         if not fqn:
             return
-        out_json = os.path.join(self.root, "export.json")
-        logf = os.path.join(self.root, "kani.log")
-        self.wall = run_kani(self.ws, self.pkg, self.tdir, fqn, jobs, timeout_s, out_json, logf,
-                             mem_gb=mem_gb, is_bin=self.is_bin)
-        res = parse_export(out_json)
-        if res is None:
-            with open(logf) as f:
-                tail = f.read()[-4000:]
-            raise Inconclusive(f"kani produced no result file for build '{self.variant}' (compile error or crash):\n{tail}")
-        self.results = res
-        missing = [n for n in fqn if n not in res]
+        # kani-driver keeps every check record of every harness in memory for --export-json
+        # (17 k records per harness here): more than ~60 harnesses per invocation exhausts it.
+        CHUNK = 48
+        self.results = {}
+        self.wall = 0.0
+        self.run_no = 0
+
+        def run_part(part):
+            self.run_no += 1
+            out_json = os.path.join(self.root, f"export-{self.run_no}.json")
+            logf = os.path.join(self.root, "kani.log" if self.run_no == 1 else f"kani-{self.run_no}.log")
+            self.wall += run_kani(self.ws, self.pkg, self.tdir, part, jobs, timeout_s, out_json, logf,
+                                  mem_gb=mem_gb, is_bin=self.is_bin)
+            res = parse_export(out_json)
+            if res is None:
+                with open(logf) as f:
+                    txt = f.read()
+                if "error: could not compile" in txt or "error[E" in txt or len(part) == 1:
+                    if len(part) == 1 and "Checking harness" in txt:
+                        # kani-driver itself died on this harness (it panics on the output of an
+                        # out-of-memory CBMC): no verdict for it, the others are unaffected
+                        self.results[part[0]] = {"status": "Failure", "duration_s": 0.0, "n_checks": 0, "fails": [], "covers": [],
+                                                 "undetermined": [], "stats": {}, "error": {"exit_status": "kani-driver crashed (CBMC out of memory)"}}
+                        return
+                    raise Inconclusive(f"kani produced no result file for build '{self.variant}' (compile error or crash):\n{txt[-4000:]}")
+                # one harness took kani-driver down: bisect so that the others still get a verdict
+                mid = len(part) // 2
+                run_part(part[:mid])
+                run_part(part[mid:])
+                return
+            self.results.update(res)
+            # per-harness goto binaries of this chunk are no longer needed (17 MB each)
+            for dirpath, dirs, files in os.walk(os.path.join(self.tdir, "kani")):
+                for fn in files:
+                    if fn.endswith((".out", ".symtab.out", ".pretty_name_map.json", ".type_map.json")) and "verif_kani" in fn:
+                        try:
+                            os.remove(os.path.join(dirpath, fn))
+                        except OSError:
+                            pass
+            try:
+                os.remove(out_json)
+            except OSError:
+                pass
+
+        for ci in range(0, len(fqn), CHUNK):
+            run_part(fqn[ci:ci + CHUNK])
+        missing = [n for n in fqn if n not in self.results]
         if missing:
             raise Inconclusive(f"kani did not report {len(missing)} requested harness(es), e.g. {missing[0]}")
 
@@ -546,7 +582,9 @@ def check_property(prop, tier, seed, only=None, keep=False):
         # prepare sequentially (cheap), run in parallel with a split of the cores
         for b in builds:
             b.prepare()
-        tot = sum(sum(len(h) for h in b.sel.values()) for b in builds) or 1
+        def cost(b):
+            return sum(len(h) * G.GROUPS[gn].get("weight", 1) for gn, h in b.sel.items())
+        tot = sum(cost(b) for b in builds) or 1
         threads = []
         errors = []
 
@@ -560,7 +598,7 @@ def check_property(prop, tier, seed, only=None, keep=False):
 
         for b in builds:
             n = sum(len(h) for h in b.sel.values())
-            jobs = max(1, min(n, round(NCPU * n / tot)))
+            jobs = max(1, min(n, round(NCPU * cost(b) / tot)))
             th = threading.Thread(target=runb, args=(b, jobs))
             th.start()
             threads.append(th)
